@@ -16,11 +16,14 @@ void Exec::op_misuse(const Op& op) {
   int s = (int)op.num("s"); if (s < 0 || s >= NSLOTS || !m.slots[s].live) return; Blk& b = m.slots[s];
   std::string kind = op.str("kind", "dfree");
   // a block left behind by an ended thread (no home heap): only the overflow misuse applies (its free is a cross-thread free / a reclaim-on-free)
-  if (b.home < 1 && kind == "overflow" && b.home > -20 && !b.stranded && !b.foreign && b.u <= MiB) {
-    size_t n = b.n; uint8_t* p = b.p; if (!b.pristine || b.u < b.n || b.a > 1 || b.o != 0 || b.zmode || n == 0) { count(C_EXCLUDED); return; }
+  if (b.home < 1 && kind == "overflow" && b.home > -20 && !b.stranded && b.u <= MiB) {
+    size_t n = b.n; uint8_t* p = b.p; if (!b.pristine || b.u < b.n || b.a > 16 || (b.a > 1 && b.u != b.n) || b.o != 0 || b.zmode || n == 0) { count(C_EXCLUDED); return; }
     int efault0 = mi_errors[1], other0 = mi_errors[2] + mi_errors[5]; uint8_t v = (uint8_t)op.num("v", 1); if (v == 0 || v == 0xDE) v = 0x41;
     verify_blk(s, "before-misuse"); p[n] = v; model_remove(s, true); expect_err = EFAULT;
-    if (op.num("thread", 0)) { ThreadJob j; j.ptrs.push_back(p); run_thread(j); } else mi_free(p);
+    if (op.num("thread", 0)) { ThreadJob j; j.ptrs.push_back(p); run_thread(j); for (int i = 1; i < NHEAPS; i++) if (m.heaps[i].alive) m.heaps[i].pending_remote = true; } else mi_free(p);
+    // (if the segment had been adopted by a heap of this thread, the remote free parked the block on that heap's delayed list: the owner checks the
+    //  padding once more when it handles it -- let that second report happen inside this op)
+    for (int i = 1; i < NHEAPS; i++) if (m.heaps[i].alive) { mi_heap_collect(m.heaps[i].h, false); m.heaps[i].pending_remote = false; }
     expect_err = 0; count(C_FREES);
     if (mi_errors[1] == efault0) fail_now("overflow-undetected", "op#%ld byte 0x%02x written at offset %zu (= requested size) of block %p (left behind by an ended thread) was not reported when the block was freed", opi, v, n, p);
     if (mi_errors[2] + mi_errors[5] != other0) fail_now("misuse-other-error", "op#%ld unexpected error code reported (%d)", opi, last_err);
@@ -193,6 +196,11 @@ static Case gen_c17(Chooser& ch) {
   Gen g(ch, pf); int nops = (int)ch.range(20, 120); int misuses = 0;
   if (ch.chance(1, 3)) g.out.push_back(Op("opt").s("name", "abandoned_reclaim_on_free").u("v", 1));   // the first free into an abandoned segment adopts it and frees locally
   while ((int)g.out.size() < nops) {
+    if (ch.chance(1, 25) && g.next_slot + 8 < NSLOTS) {
+      // a thread leaves a few tiny blocks behind and ends; the very next free of one of them (by the main thread, or by another helper) carries the overflow
+      size_t kk = ch.range(2, 6), tn = ch.chance(2, 3) ? ch.range(1, 7) : ch.range(8, 64); int s0 = g.next_slot; g.next_slot += (int)kk;
+      g.out.push_back(Op("talloc").u("s", (uint64_t)s0).u("k", kk).u("n", tn)); for (size_t i = 0; i < kk; i++) g.note_alloc(s0 + (int)i, tn, 1, 0, false, -1); g.groups.push_back({ s0, (int)kk, tn });
+      int s = s0 + (int)ch.pick(kk); g.out.push_back(Op("misuse").u("s", (uint64_t)s).s("kind", "overflow").u("v", ch.range(1, 255)).u("thread", ch.chance(1, 4))); g.note_free(s); misuses++; continue; }
     if (g.out.size() > 6 && ch.chance(1, 7)) {
       int s = g.pick_live(); if (s < 0) { g.step(); continue; }
       Op op("misuse"); op.u("s", (uint64_t)s);
